@@ -59,12 +59,16 @@ async fn scenario(sim: Arc<Sim>, unit: Value) -> Obs {
     let n_peers = unit["peers"].as_u64().unwrap() as usize;
     let crash = unit["crash"].as_str().unwrap_or("none").to_string();
     let action = unit["action"].as_str().unwrap_or("shutdown").to_string();
-    let ctx = format!("[peers {n_peers}, in flight {}, concurrent {}, action {action}, crash {crash}{}]", unit["inflight"], unit["concurrent"], match unit["shutdown_idle_ms"].as_u64() { Some(v) => format!(", shutdown_idle_timeout {v} ms"), None => String::new() });
+    let ctx = format!("[peers {n_peers}, in flight {}, concurrent {}, action {action}, crash {crash}{}{}]", unit["inflight"], unit["concurrent"], match unit["shutdown_idle_ms"].as_u64() { Some(v) => format!(", shutdown_idle_timeout {v} ms"), None => String::new() }, match unit["connecting_cap"].as_u64() { Some(v) => format!(", cap of {v} on connections being established"), None => String::new() });
 
     let mut cfg_under_test = cfg_n();
     // the configured bound on the idle wait; 0 and tiny values are legal
     let shutdown_idle_ms = unit["shutdown_idle_ms"].as_u64().unwrap_or(SHUTDOWN_IDLE_MS);
     cfg_under_test.shutdown_idle_timeout_ms = Some(shutdown_idle_ms);
+    // optionally a small cap on connections being established, which the in-flight dials fill
+    if let Some(cap) = unit["connecting_cap"].as_u64() {
+        cfg_under_test.max_concurrent_outstanding_connecting_connections = Some(cap as usize);
+    }
     if has(&unit, "concurrent", "flood") {
         // a one-slot mailbox between the API and the connection manager
         cfg_under_test.connection_manager_channel_capacity = Some(1);
@@ -434,7 +438,7 @@ impl Check for C08 {
         CheckMeta {
             property: "C08",
             level: "fault_enumeration",
-            rule: "network under test with 0-2 connected peers; every subset (size <= 2 quick / 3 thorough) of in-flight work {outbound rpc, inbound rpc being served, second inbound rpc, explicit dial to a black hole, background dial, outbound dial cut after its k-th datagram, inbound handshake cut after its k-th datagram} x concurrent API calls {connect, rpc, second shutdown, subscribe/peers/disconnect, three connects filling a one-slot manager mailbox just before shutdown()} x action {shutdown, drop of the last handle}; shutdown_idle_timeout 700 ms, and 0 / 30 ms for subsets of size <= 2; crash points: runtime dropped before / during (after each k-th datagram of the close exchange) / after shutdown with handles alive, endpoint driver killed, connection drivers killed, fatal socket error, handler or pending tasks cancelled while the manager is still polled; plus datagram-fate deviations on the close exchange; distinct = distinct (action, stream end, event count / teardown point)".into(),
+            rule: "network under test with 0-2 connected peers; every subset (size <= 2 quick / 3 thorough) of in-flight work {outbound rpc, inbound rpc being served, second inbound rpc, explicit dial to a black hole, background dial, outbound dial cut after its k-th datagram, inbound handshake cut after its k-th datagram} x concurrent API calls {connect, rpc, second shutdown, subscribe/peers/disconnect, three connects filling a one-slot manager mailbox just before shutdown()} x action {shutdown, drop of the last handle}; shutdown_idle_timeout 700 ms, and 0 / 30 ms for subsets of size <= 2; in-flight dials filling a cap of 1 on connections being established; crash points: runtime dropped before / during (after each k-th datagram of the close exchange) / after shutdown with handles alive, endpoint driver killed, connection drivers killed, fatal socket error, handler or pending tasks cancelled while the manager is still polled; plus datagram-fate deviations on the close exchange; distinct = distinct (action, stream end, event count / teardown point)".into(),
             assumptions: vec![
                 "multi-thread runtime teardown is emulated on one thread by cancelling task classes (hook H5) or killing quinn driver tasks at quiescent points, then dropping the runtime".into(),
                 "a wall-clock watchdog turns a poll that never returns into a 'hang' verdict".into(),
@@ -458,6 +462,12 @@ impl Check for C08 {
                             continue;
                         }
                         u.push(json!({"peers":peers,"inflight":inflight,"concurrent":conc,"action":action,"crash":"none","bound":0}));
+                    }
+                }
+                // the in-flight dials fill a cap of 1 on connections being established
+                if inflight.iter().any(|i| *i == "dial_blackhole" || *i == "bg_dial") && inflight.len() <= 2 {
+                    for action in ["shutdown", "drop"] {
+                        u.push(json!({"peers":peers,"inflight":inflight,"concurrent":[],"action":action,"crash":"none","bound":0,"connecting_cap":1}));
                     }
                 }
                 // other values of the configured idle-wait bound
